@@ -1,4 +1,520 @@
-From Coq Require Import ZArith List Bool Lia.
+(** Proofs about RegModel.v: soundness of the registry checkers, lexical lemmas, and the
+    text round trips of tags, enumeration values and bit masks, generic in the registry. *)
+From Coq Require Import ZArith List Bool Lia Arith.
 From KV Require Import Base RegModel.
 Import ListNotations.
 Open Scope Z_scope.
+
+(* ------------------------------------------------------------------ *)
+(** * Strings and association lists *)
+
+Lemma str_eqb_eq : forall a b, str_eqb a b = true <-> a = b.
+Proof.
+  induction a as [|x a IH]; intros [|y b]; cbn [str_eqb]; split; intros H; try congruence; try discriminate.
+  - apply andb_true_iff in H. destruct H as [H1 H2]. apply Z.eqb_eq in H1. apply IH in H2. congruence.
+  - inversion H; subst. rewrite Z.eqb_refl. cbn. apply IH. reflexivity.
+Qed.
+
+Lemma str_eqb_refl : forall a, str_eqb a a = true.
+Proof. intros a. apply str_eqb_eq. reflexivity. Qed.
+
+Lemma str_eqb_neq : forall a b, str_eqb a b = false <-> a <> b.
+Proof.
+  intros a b. split; intros H.
+  - intros E. apply str_eqb_eq in E. congruence.
+  - destruct (str_eqb a b) eqn:E; [apply str_eqb_eq in E; contradiction | reflexivity].
+Qed.
+
+Lemma zfind_In : forall A (l : list (Z * A)) k v, zfind k l = Some v -> In (k, v) l.
+Proof.
+  induction l as [|[k' a] l IH]; intros k v H; cbn [zfind] in H; [discriminate|].
+  destruct (k' =? k) eqn:E.
+  - apply Z.eqb_eq in E. inversion H; subst. left. reflexivity.
+  - right. apply IH. exact H.
+Qed.
+
+Lemma sfind_In : forall A (l : list (str * A)) k v, sfind k l = Some v -> In (k, v) l.
+Proof.
+  induction l as [|[k' a] l IH]; intros k v H; cbn [sfind] in H; [discriminate|].
+  destruct (str_eqb k' k) eqn:E.
+  - apply str_eqb_eq in E. inversion H; subst. left. reflexivity.
+  - right. apply IH. exact H.
+Qed.
+
+Lemma existsb_zeqb_false : forall x l, existsb (Z.eqb x) l = false -> ~ In x l.
+Proof.
+  intros x l H HI. assert (existsb (Z.eqb x) l = true) as E.
+  { apply existsb_exists. exists x. split; [exact HI | apply Z.eqb_refl]. }
+  congruence.
+Qed.
+
+Lemma existsb_seqb_false : forall x l, existsb (str_eqb x) l = false -> ~ In x l.
+Proof.
+  intros x l H HI. assert (existsb (str_eqb x) l = true) as E.
+  { apply existsb_exists. exists x. split; [exact HI | apply str_eqb_refl]. }
+  congruence.
+Qed.
+
+(** with unique keys, membership determines the lookup *)
+Lemma zfind_nodup : forall A (l : list (Z * A)) k v,
+  znodup (map fst l) = true -> In (k, v) l -> zfind k l = Some v.
+Proof.
+  induction l as [|[k' a] l IH]; intros k v ND HI; [contradiction|].
+  cbn [map fst znodup] in ND. apply andb_true_iff in ND. destruct ND as [N1 N2].
+  cbn [zfind]. destruct HI as [HI|HI].
+  - inversion HI; subst. rewrite Z.eqb_refl. reflexivity.
+  - destruct (k' =? k) eqn:E.
+    + apply Z.eqb_eq in E. subst k'. apply negb_true_iff in N1. apply existsb_zeqb_false in N1.
+      exfalso. apply N1. apply in_map_iff. exists (k, v). split; [reflexivity | exact HI].
+    + apply IH; assumption.
+Qed.
+
+Lemma sfind_nodup : forall A (l : list (str * A)) k v,
+  snodup (map fst l) = true -> In (k, v) l -> sfind k l = Some v.
+Proof.
+  induction l as [|[k' a] l IH]; intros k v ND HI; [contradiction|].
+  cbn [map fst snodup] in ND. apply andb_true_iff in ND. destruct ND as [N1 N2].
+  cbn [sfind]. destruct HI as [HI|HI].
+  - inversion HI; subst. rewrite str_eqb_refl. reflexivity.
+  - destruct (str_eqb k' k) eqn:E.
+    + apply str_eqb_eq in E. subst k'. apply negb_true_iff in N1. apply existsb_seqb_false in N1.
+      exfalso. apply N1. apply in_map_iff. exists (k, v). split; [reflexivity | exact HI].
+    + apply IH; assumption.
+Qed.
+
+(* ------------------------------------------------------------------ *)
+(** * Soundness of [bij_check] *)
+
+Lemma bij_check_fwd : forall f g n s,
+  bij_check f g = true -> zfind n f = Some s -> sfind s g = Some n.
+Proof.
+  intros f g n s H Hf. unfold bij_check in H.
+  repeat (apply andb_true_iff in H; destruct H as [H ?]).
+  apply zfind_In in Hf.
+  match goal with H1 : forallb _ f = true |- _ => rewrite forallb_forall in H1; specialize (H1 _ Hf); cbn [fst snd] in H1 end.
+  destruct (sfind s g) as [n'|]; [|discriminate].
+  match goal with H1 : (n' =? n) = true |- _ => apply Z.eqb_eq in H1; subst; reflexivity end.
+Qed.
+
+Lemma bij_check_bwd : forall f g n s,
+  bij_check f g = true -> sfind s g = Some n -> zfind n f = Some s.
+Proof.
+  intros f g n s H Hg. unfold bij_check in H.
+  repeat (apply andb_true_iff in H; destruct H as [H ?]).
+  apply sfind_In in Hg.
+  match goal with H1 : forallb _ g = true |- _ => rewrite forallb_forall in H1; specialize (H1 _ Hg); cbn [fst snd] in H1 end.
+  destruct (zfind n f) as [s'|]; [|discriminate].
+  match goal with H1 : str_eqb s' s = true |- _ => apply str_eqb_eq in H1; subst; reflexivity end.
+Qed.
+
+Theorem bij_check_sound : forall f g,
+  bij_check f g = true -> forall n s, zfind n f = Some s <-> sfind s g = Some n.
+Proof. intros f g H n s. split; [apply bij_check_fwd | apply bij_check_bwd]; exact H. Qed.
+
+Lemma bij_check_keys : forall f g, bij_check f g = true -> znodup (map fst f) = true /\ snodup (map fst g) = true.
+Proof.
+  intros f g H. unfold bij_check in H.
+  repeat (apply andb_true_iff in H; destruct H as [H ?]). split; assumption.
+Qed.
+
+(** two numbers never share a name, two names never share a number *)
+Corollary bij_check_injective : forall f g, bij_check f g = true ->
+  (forall n n' s, zfind n f = Some s -> zfind n' f = Some s -> n = n') /\
+  (forall s s' n, sfind s g = Some n -> sfind s' g = Some n -> s = s').
+Proof.
+  intros f g H. split.
+  - intros n n' s H1 H2. apply (bij_check_fwd _ _ _ _ H) in H1. apply (bij_check_fwd _ _ _ _ H) in H2. congruence.
+  - intros s s' n H1 H2. apply (bij_check_bwd _ _ _ _ H) in H1. apply (bij_check_bwd _ _ _ _ H) in H2. congruence.
+Qed.
+
+(* ------------------------------------------------------------------ *)
+(** * Name hygiene *)
+
+Lemma name_ok_nonempty : forall s, name_ok s = true -> s <> [].
+Proof. intros [|c s] H; [discriminate | discriminate]. Qed.
+
+Lemma name_ok_head : forall c s, name_ok (c :: s) = true -> is_letter c = true.
+Proof. intros c s H. cbn [name_ok] in H. apply andb_true_iff in H. tauto. Qed.
+
+Lemma name_ok_chars : forall s c, name_ok s = true -> In c s -> name_char c = true.
+Proof.
+  intros [|x s] c H HI; [contradiction|]. cbn [name_ok] in H. apply andb_true_iff in H.
+  destruct H as [_ H]. rewrite forallb_forall in H. apply H. exact HI.
+Qed.
+
+Lemma is_letter_range : forall c, is_letter c = true -> (65 <= c <= 90) \/ (97 <= c <= 122).
+Proof. intros c H. unfold is_letter in H. lia. Qed.
+
+Lemma name_char_range : forall c, name_char c = true ->
+  (65 <= c <= 90) \/ (97 <= c <= 122) \/ (48 <= c <= 57) \/ c = 95.
+Proof. intros c H. unfold name_char, is_letter, is_digit in H. lia. Qed.
+
+Lemma name_char_not_space : forall c, name_char c = true -> is_space c = false.
+Proof. intros c H. apply name_char_range in H. unfold is_space. lia. Qed.
+
+Lemma name_char_not_bar : forall c, name_char c = true -> is_bar c = false.
+Proof. intros c H. apply name_char_range in H. unfold is_bar. lia. Qed.
+
+Lemma name_ok_no_0x : forall s, name_ok s = true -> has_prefix s_0x s = false /\ has_prefix s_0X s = false.
+Proof.
+  intros [|c s] H; [discriminate|]. apply name_ok_head in H. apply is_letter_range in H.
+  unfold s_0x, s_0X. cbn [has_prefix].
+  assert ((48 =? c) = false) as -> by lia. cbn. split; reflexivity.
+Qed.
+
+Lemma letter_not_digit : forall c, is_letter c = true -> forall base, base <= 16 ->
+  match digit_val c with Some d => d <? base | None => false end = true -> 10 <= base.
+Proof.
+  intros c H base Hb. apply is_letter_range in H. unfold digit_val.
+  destruct ((48 <=? c) && (c <=? 57)) eqn:E1; [lia|].
+  destruct ((97 <=? c) && (c <=? 122)) eqn:E2; [lia|].
+  destruct ((65 <=? c) && (c <=? 90)) eqn:E3; [lia|]. discriminate.
+Qed.
+
+(** a name never parses as a decimal number, signed or not *)
+Lemma name_ok_not_decimal : forall s bits, name_ok s = true ->
+  parse_uint 10 bits s = None /\ parse_int 10 bits s = None.
+Proof.
+  intros [|c s] bits H; [discriminate|]. apply name_ok_head in H. apply is_letter_range in H.
+  assert (digit_val c = None \/ exists d, digit_val c = Some d /\ 10 <= d) as Hd.
+  { unfold digit_val.
+    destruct ((48 <=? c) && (c <=? 57)) eqn:E1; [lia|].
+    destruct ((97 <=? c) && (c <=? 122)) eqn:E2; [right; eexists; split; [reflexivity|lia]|].
+    destruct ((65 <=? c) && (c <=? 90)) eqn:E3; [right; eexists; split; [reflexivity|lia]|]. left. reflexivity. }
+  assert (parse_digits 10 (c :: s) 0 = None) as HP.
+  { cbn [parse_digits]. destruct Hd as [-> | [d [-> Hd]]]; [reflexivity|].
+    assert ((d <? 10) = false) as -> by lia. reflexivity. }
+  split.
+  - unfold parse_uint. rewrite HP. reflexivity.
+  - unfold parse_int. assert ((c =? 43) = false) as -> by lia. assert ((c =? 45) = false) as -> by lia.
+    cbn [orb]. rewrite HP. reflexivity.
+Qed.
+
+Lemma name_ok_no_space : forall s, name_ok s = true -> forallb (fun c => negb (is_space c)) s = true.
+Proof.
+  intros s H. apply forallb_forall. intros c HI. rewrite (name_char_not_space c); [reflexivity|].
+  eapply name_ok_chars; eauto.
+Qed.
+
+Lemma name_ok_no_bar : forall s, name_ok s = true -> forallb (fun c => negb (is_bar c)) s = true.
+Proof.
+  intros s H. apply forallb_forall. intros c HI. rewrite (name_char_not_bar c); [reflexivity|].
+  eapply name_ok_chars; eauto.
+Qed.
+
+(* ------------------------------------------------------------------ *)
+(** * Hexadecimal printing and parsing *)
+
+Lemma hexdigit_val : forall d, 0 <= d < 16 -> digit_val (hexdigit d) = Some d.
+Proof.
+  intros d H. unfold hexdigit, digit_val. destruct (d <? 10) eqn:E.
+  - assert ((48 <=? 48 + d) && (48 + d <=? 57) = true) as -> by lia. f_equal. lia.
+  - assert ((48 <=? 55 + d) && (55 + d <=? 57) = false) as -> by lia.
+    assert ((97 <=? 55 + d) && (55 + d <=? 122) = false) as -> by lia.
+    assert ((65 <=? 55 + d) && (55 + d <=? 90) = true) as -> by lia. f_equal. lia.
+Qed.
+
+Lemma hexdigit_not_sign : forall d, 0 <= d < 16 -> hexdigit d <> 43 /\ hexdigit d <> 45.
+Proof. intros d H. unfold hexdigit. destruct (d <? 10) eqn:E; lia. Qed.
+
+Lemma parse_digits_hexN : forall n v acc, 0 <= v ->
+  parse_digits 16 (hexN n v) acc = Some (acc * 16 ^ Z.of_nat n + v mod 16 ^ Z.of_nat n).
+Proof.
+  induction n as [|n IH]; intros v acc Hv.
+  - cbn [hexN parse_digits]. change (16 ^ Z.of_nat 0) with 1. rewrite Z.mod_1_r. f_equal. lia.
+  - cbn [hexN parse_digits].
+    assert (0 < 16 ^ Z.of_nat n) as Hp by (apply Z.pow_pos_nonneg; lia).
+    assert (0 <= (v / 16 ^ Z.of_nat n) mod 16 < 16) as Hd by (apply Z.mod_pos_bound; lia).
+    rewrite (hexdigit_val _ Hd).
+    assert (((v / 16 ^ Z.of_nat n) mod 16 <? 16) = true) as -> by lia.
+    rewrite IH by exact Hv. f_equal.
+    rewrite Nat2Z.inj_succ, Z.pow_succ_r by lia.
+    rewrite (Z.mul_comm 16 (16 ^ Z.of_nat n)).
+    rewrite (Z.rem_mul_r v (16 ^ Z.of_nat n) 16) by lia. ring.
+Qed.
+
+Lemma hexN_length : forall n v, length (hexN n v) = n.
+Proof. induction n; intros v; cbn [hexN length]; [reflexivity | f_equal; apply IHn]. Qed.
+
+Lemma parse_hexN_small : forall n v, 0 <= v < 16 ^ Z.of_nat n ->
+  parse_digits 16 (hexN n v) 0 = Some v.
+Proof.
+  intros n v H. rewrite parse_digits_hexN by lia. rewrite Z.mod_small by lia. f_equal.
+Qed.
+
+Lemma has_prefix_app : forall p s, has_prefix p (p ++ s) = true.
+Proof. induction p as [|a p IH]; intros s; cbn [has_prefix app]; [reflexivity|]. rewrite Z.eqb_refl. apply IH. Qed.
+
+Lemma skipn_0x : forall s, skipn 2 (s_0x ++ s) = s.
+Proof. reflexivity. Qed.
+
+(** "0x%08X" of a uint32 is read back by ParseUint(.., 16, 32) *)
+Lemma parse_fmt_0x08X : forall v, 0 <= v < 2 ^ 32 ->
+  has_prefix s_0x (fmt_0x08X v) = true /\ parse_uint 16 32 (skipn 2 (fmt_0x08X v)) = Some v.
+Proof.
+  intros v H. unfold fmt_0x08X. split; [apply has_prefix_app|]. rewrite skipn_0x.
+  assert (to_u32 v = v) as -> by (unfold to_u32; apply Z.mod_small; exact H).
+  unfold parse_uint. rewrite parse_hexN_small by (change (16 ^ Z.of_nat 8) with (2 ^ 32); exact H).
+  cbn [hexN]. assert ((v <? 2 ^ 32) = true) as -> by lia. reflexivity.
+Qed.
+
+Lemma hex_width_bound : forall u, 0 <= u -> u < 16 ^ Z.of_nat (hex_width u).
+Proof.
+  intros u H. unfold hex_width. destruct (u <=? 0) eqn:E.
+  - assert (u = 0) by lia. subst. reflexivity.
+  - assert (0 < u) as Hp by lia.
+    pose proof (Z.log2_nonneg u) as Hl.
+    assert (0 <= Z.log2 u / 4) as Hq by (apply Z.div_pos; lia).
+    rewrite Z2Nat.id by lia.
+    replace 16 with (2 ^ 4) by reflexivity. rewrite <- Z.pow_mul_r; [|lia|lia].
+    apply Z.log2_lt_pow2; [exact Hp|].
+    pose proof (Z.div_mod (Z.log2 u) 4 ltac:(lia)) as Hdm.
+    pose proof (Z.mod_pos_bound (Z.log2 u) 4 ltac:(lia)). lia.
+Qed.
+
+Lemma hexN_head : forall n v, (0 < n)%nat -> exists d r, 0 <= d < 16 /\ hexN n v = hexdigit d :: r.
+Proof.
+  intros [|n] v H; [lia|]. cbn [hexN]. eexists. eexists. split; [|reflexivity].
+  apply Z.mod_pos_bound. lia.
+Qed.
+
+(** "0x%06X" of a tag in the int32 range is read back by ParseInt(.., 16, 32) *)
+Lemma parse_fmt_0x06X : forall n, 0 <= n < 2 ^ 31 ->
+  has_prefix s_0x (fmt_0x06X n) = true /\ parse_int 16 32 (skipn 2 (fmt_0x06X n)) = Some n /\ fmt_0x06X n <> [].
+Proof.
+  intros n H. unfold fmt_0x06X. split; [apply has_prefix_app|]. split; [|discriminate]. rewrite skipn_0x.
+  assert (to_u64 n = n) as -> by (unfold to_u64; apply Z.mod_small; lia).
+  set (w := Nat.max 6 (hex_width n)).
+  assert (n < 16 ^ Z.of_nat w) as Hw.
+  { pose proof (hex_width_bound n ltac:(lia)) as Hb.
+    eapply Z.lt_le_trans; [exact Hb|]. apply Z.pow_le_mono_r; [lia|]. unfold w. lia. }
+  destruct (hexN_head w n ltac:(unfold w; lia)) as [d [r [Hd Hr]]].
+  unfold parse_int. pose proof (parse_hexN_small w n ltac:(lia)) as HP. rewrite Hr in *.
+  destruct (hexdigit_not_sign d Hd) as [N1 N2].
+  assert ((hexdigit d =? 43) = false) as -> by lia. assert ((hexdigit d =? 45) = false) as -> by lia.
+  cbn [orb]. rewrite HP. assert ((n <? 2 ^ (32 - 1)) = true) as -> by (change (2 ^ (32 - 1)) with (2 ^ 31); lia).
+  reflexivity.
+Qed.
+
+(* ------------------------------------------------------------------ *)
+(** * What [registry_ok] contains *)
+
+Record registry_facts (R : registry) : Prop := {
+  rf_tags : bij_check (tagNames R) (tagByName R) = true;
+  rf_tag_names : names_check (tagNames R) = true;
+  rf_no_ttlv : existsb (fun p => str_eqb (snd p) s_TTLV) (tagNames R) = false;
+  rf_enums : scoped_bij_check (enumNames R) (enumsByName R) = true;
+  rf_enum_names : forallb (fun p => names_check (snd p) && in_u32_all (snd p)) (enumNames R) = true;
+  rf_masks : masks_check (bitmaskNames R) (bitmaskByName R) = true;
+  rf_types : bij_check (typesName R) (nameTypes R) = true;
+  rf_type_names : names_check (typesName R) = true
+}.
+
+Lemma registry_ok_facts : forall R, registry_ok R = true -> registry_facts R.
+Proof.
+  intros R H. unfold registry_ok in H.
+  do 7 (apply andb_true_iff in H; destruct H as [H ?]).
+  constructor; try assumption.
+  match goal with H1 : negb _ = true |- _ => apply negb_true_iff in H1; exact H1 end.
+Qed.
+
+Lemma names_check_In : forall f n s, names_check f = true -> In (n, s) f -> name_ok s = true.
+Proof.
+  intros f n s H HI. unfold names_check in H. rewrite forallb_forall in H. apply (H (n, s)). exact HI.
+Qed.
+
+(* ------------------------------------------------------------------ *)
+(** * Tags *)
+
+Section Tags.
+  Variable R : registry.
+  Hypothesis ROK : registry_ok R = true.
+  Let F := registry_ok_facts R ROK.
+
+  (** a registered tag: its canonical name has all the lexical properties, and denotes it *)
+  Lemma tag_registered : forall n s, zfind n (tagNames R) = Some s ->
+    name_ok s = true /\ s <> s_TTLV /\ sfind s (tagByName R) = Some n.
+  Proof.
+    intros n s H. pose proof (zfind_In _ _ _ _ H) as HI. split; [|split].
+    - eapply names_check_In; [apply (rf_tag_names R F) | exact HI].
+    - intros E. pose proof (rf_no_ttlv R F) as N.
+      assert (existsb (fun p => str_eqb (snd p) s_TTLV) (tagNames R) = true) as T.
+      { apply existsb_exists. exists (n, s). split; [exact HI|]. cbn [snd]. rewrite E. apply str_eqb_refl. }
+      congruence.
+    - eapply bij_check_fwd; [apply (rf_tags R F) | exact H].
+  Qed.
+
+  Lemma tags_bij : forall n s, zfind n (tagNames R) = Some s <-> sfind s (tagByName R) = Some n.
+  Proof. apply bij_check_sound. apply (rf_tags R F). Qed.
+
+  Lemma tags_bij_go : forall n s, s <> [] -> (getTagName R n = s <-> getTagByName R s = Some n).
+  Proof.
+    intros n s Hs. unfold getTagName, getTagByName. rewrite <- tags_bij. split.
+    - destruct (zfind n (tagNames R)); intros E; congruence.
+    - intros ->. reflexivity.
+  Qed.
+
+  Lemma read_tag_hex : forall n, 0 <= n < 2 ^ 31 -> read_tag R (fmt_0x06X n) = n.
+  Proof.
+    intros n H. destruct (parse_fmt_0x06X n H) as [H1 [H2 H3]]. unfold read_tag.
+    destruct (fmt_0x06X n) as [|c r] eqn:E; [congruence|]. rewrite H1, H2. reflexivity.
+  Qed.
+
+  Lemma read_tag_name : forall n s, zfind n (tagNames R) = Some s -> read_tag R s = n.
+  Proof.
+    intros n s H. destruct (tag_registered n s H) as [H1 [H2 H3]].
+    destruct (name_ok_no_0x s H1) as [P1 _]. unfold read_tag.
+    destruct s as [|c r]; [discriminate|]. rewrite P1. unfold getTagByName. rewrite H3. reflexivity.
+  Qed.
+
+  Theorem tag_text_rt : forall n, 0 <= n < 2 ^ 31 ->
+    read_tag R (xml_raw_tag (xml_start R n)) = n /\ read_tag R (TagString R n) = n.
+  Proof.
+    intros n H. unfold xml_start, TagString, getTagName.
+    destruct (zfind n (tagNames R)) as [s|] eqn:E.
+    - destruct (tag_registered n s E) as [H1 [H2 H3]]. split; [|apply read_tag_name; exact E].
+      destruct s as [|c r]; [discriminate|]. unfold xml_raw_tag. cbn [fst snd].
+      assert (str_eqb (c :: r) s_TTLV = false) as -> by (apply str_eqb_neq; exact H2).
+      apply read_tag_name. exact E.
+    - split; [|apply read_tag_hex; exact H]. unfold xml_raw_tag. cbn [fst snd].
+      rewrite str_eqb_refl. apply read_tag_hex. exact H.
+  Qed.
+
+  (** what the three writers print for a tag is either its canonical name or the hex form *)
+  Lemma TagString_cases : forall n,
+    (exists s, zfind n (tagNames R) = Some s /\ TagString R n = s /\ xml_start R n = (s, None)) \/
+    (zfind n (tagNames R) = None /\ TagString R n = fmt_0x06X n /\ xml_start R n = (s_TTLV, Some (fmt_0x06X n))).
+  Proof.
+    intros n. unfold TagString, xml_start, getTagName. destruct (zfind n (tagNames R)) as [s|] eqn:E.
+    - left. exists s. destruct (tag_registered n s E) as [H1 _]. destruct s; [discriminate|]. auto.
+    - right. auto.
+  Qed.
+End Tags.
+
+(* ------------------------------------------------------------------ *)
+(** * Enumerations *)
+
+Lemma hexdigit_range : forall d, 0 <= d < 16 -> (48 <= hexdigit d <= 57) \/ (65 <= hexdigit d <= 70).
+Proof. intros d H. unfold hexdigit. destruct (d <? 10) eqn:E; lia. Qed.
+
+Lemma hexN_chars : forall n v c, In c (hexN n v) -> (48 <= c <= 57) \/ (65 <= c <= 70).
+Proof.
+  induction n as [|n IH]; intros v c H; cbn [hexN] in H; [contradiction|].
+  destruct H as [H|H]; [|eapply IH; exact H]. subst c. apply hexdigit_range. apply Z.mod_pos_bound. lia.
+Qed.
+
+Lemma fmt_0x08X_chars : forall v c, In c (fmt_0x08X v) -> c = 48 \/ c = 120 \/ (48 <= c <= 57) \/ (65 <= c <= 70).
+Proof.
+  intros v c H. unfold fmt_0x08X, s_0x in H. cbn [app] in H. destruct H as [H|[H|H]]; [lia|lia|].
+  apply hexN_chars in H. lia.
+Qed.
+
+Lemma contains_false : forall c s, (forall x, In x s -> x <> c) -> contains c s = false.
+Proof.
+  intros c s H. unfold contains. destruct (existsb (Z.eqb c) s) eqn:E; [|reflexivity].
+  apply existsb_exists in E. destruct E as [x [HI HE]]. apply Z.eqb_eq in HE. subst. exfalso. eapply H; eauto.
+Qed.
+
+Section Enums.
+  Variable R : registry.
+  Hypothesis ROK : registry_ok R = true.
+  Let F := registry_ok_facts R ROK.
+
+  Lemma enum_scope : forall t fl, zfind t (enumNames R) = Some fl ->
+    exists gl, zfind t (enumsByName R) = Some gl /\ bij_check fl gl = true /\ names_check fl = true /\ in_u32_all fl = true.
+  Proof.
+    intros t fl H. pose proof (zfind_In _ _ _ _ H) as HI.
+    pose proof (rf_enums R F) as S. unfold scoped_bij_check in S.
+    repeat (apply andb_true_iff in S; destruct S as [S ?]).
+    match goal with H1 : forallb _ (enumNames R) = true |- _ => rewrite forallb_forall in H1; specialize (H1 _ HI); cbn [fst snd] in H1 end.
+    destruct (zfind t (enumsByName R)) as [gl|]; [|discriminate]. exists gl. split; [reflexivity|].
+    pose proof (rf_enum_names R F) as N. rewrite forallb_forall in N. specialize (N _ HI). cbn [snd] in N.
+    apply andb_true_iff in N. tauto.
+  Qed.
+
+  Lemma enum_scope_rev : forall t gl, zfind t (enumsByName R) = Some gl ->
+    exists fl, zfind t (enumNames R) = Some fl /\ bij_check fl gl = true.
+  Proof.
+    intros t gl H. pose proof (zfind_In _ _ _ _ H) as HI.
+    pose proof (rf_enums R F) as S. unfold scoped_bij_check in S.
+    repeat (apply andb_true_iff in S; destruct S as [S ?]).
+    match goal with H1 : forallb _ (enumsByName R) = true |- _ => rewrite forallb_forall in H1; specialize (H1 _ HI); cbn [fst snd] in H1 end.
+    destruct (zfind t (enumNames R)) as [fl|] eqn:E; [|discriminate]. exists fl. split; [reflexivity|].
+    destruct (enum_scope t fl E) as [gl' [G1 [G2 _]]]. congruence.
+  Qed.
+
+  (** a registered enumeration value *)
+  Lemma enum_registered : forall t v c s, EnumName R t v = c :: s ->
+    name_ok (c :: s) = true /\ EnumByName R t (c :: s) = Some v /\ 0 <= v < 2 ^ 32.
+  Proof.
+    intros t v c s H. unfold EnumName in H.
+    destruct (zfind t (enumNames R)) as [fl|] eqn:E1; [|discriminate].
+    destruct (zfind v fl) as [n|] eqn:E2; [|discriminate]. subst n.
+    destruct (enum_scope t fl E1) as [gl [G1 [G2 [G3 G4]]]].
+    pose proof (zfind_In _ _ _ _ E2) as HI. split; [|split].
+    - eapply names_check_In; eauto.
+    - unfold EnumByName. rewrite G1. eapply bij_check_fwd; eauto.
+    - unfold in_u32_all in G4. rewrite forallb_forall in G4. specialize (G4 _ HI). cbn [fst] in G4.
+      unfold in_u32 in G4. lia.
+  Qed.
+
+  Lemma enums_bij_go : forall t v s, s <> [] -> (EnumName R t v = s <-> EnumByName R t s = Some v).
+  Proof.
+    intros t v s Hs. split.
+    - intros H. destruct s as [|c s]; [congruence|]. apply enum_registered in H. tauto.
+    - intros H. unfold EnumByName in H. destruct (zfind t (enumsByName R)) as [gl|] eqn:E; [|discriminate].
+      destruct (enum_scope_rev t gl E) as [fl [G1 G2]]. unfold EnumName. rewrite G1.
+      rewrite (bij_check_bwd _ _ _ _ G2 H). reflexivity.
+  Qed.
+
+  Lemma read_enum_hex : forall rt t v, 0 <= v < 2 ^ 32 -> read_enum R rt t (fmt_0x08X v) = Ok v.
+  Proof.
+    intros rt t v H. destruct (parse_fmt_0x08X v H) as [H1 H2]. unfold read_enum. rewrite H1, H2. reflexivity.
+  Qed.
+
+  (** XML and text: the string written for an enumeration value is read back as that value,
+      whether the value has a name or not *)
+  Theorem enum_text_rt : forall et t v, 0 <= v < 2 ^ 32 ->
+    read_enum R et t (write_enum R et t v) = Ok v.
+  Proof.
+    intros et t v H. unfold write_enum. destruct (EnumName R (eff_tag et t) v) as [|c s] eqn:E.
+    - apply read_enum_hex. exact H.
+    - destruct (enum_registered _ _ _ _ E) as [H1 [H2 _]].
+      destruct (name_ok_no_0x _ H1) as [P1 _]. destruct (name_ok_not_decimal _ 32 H1) as [P2 _].
+      unfold read_enum. rewrite P1, P2, H2. reflexivity.
+  Qed.
+
+  Theorem enum_json_rt : forall et t v, 0 <= v < 2 ^ 32 ->
+    read_enum_json R et t (JStr (write_enum R et t v)) = Ok v.
+  Proof. intros. cbn [read_enum_json]. apply enum_text_rt. assumption. Qed.
+
+  (** JSON readers also take plain numbers *)
+  Lemma enum_json_num : forall et t v, 0 <= v < 2 ^ 32 -> read_enum_json R et t (JNum v) = Ok v.
+  Proof.
+    intros et t v H. cbn [read_enum_json]. assert ((v >? 4294967295) || (v <? 0) = false) as -> by lia. reflexivity.
+  Qed.
+
+  Lemma unmarshal_text_hex : forall t v, 0 <= v < 2 ^ 32 -> unmarshal_text R t (fmt_0x08X v) = Ok v.
+  Proof.
+    intros t v H. destruct (parse_fmt_0x08X v H) as [H1 H2]. unfold unmarshal_text.
+    assert (contains 32 (fmt_0x08X v) = false) as ->.
+    { apply contains_false. intros x Hx. apply fmt_0x08X_chars in Hx. lia. }
+    rewrite H1. cbn [orb]. rewrite H2. reflexivity.
+  Qed.
+
+  (** MarshalText / UnmarshalText of an enumeration type registered under tag [t] *)
+  Theorem enum_marshal_rt : forall t v, 0 <= v < 2 ^ 32 ->
+    unmarshal_text R t (marshal_text R t v) = Ok v.
+  Proof.
+    intros t v H. unfold marshal_text. destruct (t =? 0) eqn:Et.
+    - destruct (fmt_0x08X v) eqn:E; rewrite <- E; apply unmarshal_text_hex; exact H.
+    - destruct (EnumName R t v) as [|c s] eqn:E; [apply unmarshal_text_hex; exact H|].
+      destruct (enum_registered _ _ _ _ E) as [H1 [H2 _]].
+      destruct (name_ok_no_0x _ H1) as [P1 P1']. destruct (name_ok_not_decimal _ 32 H1) as [P2 _].
+      unfold unmarshal_text.
+      assert (contains 32 (c :: s) = false) as ->.
+      { apply contains_false. intros x Hx. pose proof (name_ok_chars _ _ H1 Hx) as Hc.
+        apply name_char_range in Hc. lia. }
+      rewrite P1, P1'. cbn [orb]. rewrite P2, H2. reflexivity.
+  Qed.
+End Enums.
